@@ -18,6 +18,7 @@ RULE = (
     "distinct shape signatures. Patch operands carry addends (also on "
     "ARM64 pc-relative literal loads). 20% of the modules start without "
     "a symbolicExpressionSizes table (patch-created entries only)."
+    " Second module in the IR as in C01: its symbolic expressions and offset-keyed tables must be unchanged."
 )
 ASSUMPTIONS = [
     "annotations keyed at offset == block size are not generated (they annotate no byte)",
@@ -44,4 +45,5 @@ def run_case(case):
         v, c = oracles.check_aux(a.run, a.lst, a.ob)
         a.viol += v
         a.ctr.update(c)
+    rwbase.bystander(a, PROP)
     return rwbase.result(a)
